@@ -1,5 +1,5 @@
 SPECIFICATION Spec
 CONSTANTS
   Grid = "live"
-INVARIANTS TypeOK Unique OrderIndependent Resolves Correct Export
+INVARIANTS TypeOK Unique OrderIndependent Resolves Correct KeyParses Export
 PROPERTY Terminates
